@@ -430,7 +430,24 @@ def run(ck):
         (rc1, so1, se1), (rc2, so2, se2) = res
         h1 = dict(l.split() for l in se1.splitlines() if len(l.split()) == 2)
         h2 = dict(l.split() for l in se2.splitlines() if len(l.split()) == 2)
-        if rc1 != 0 or rc2 != 0 or len(h2) != len(fs):
+        if rc2 == 0 and len(h2) == len(fs) and rc1 != 0:
+            # the llgo-compiled evaluator died (e.g. SIGFPE from a raw sdiv): the first function without a
+            # result line is where; narrow it down to the operands below
+            dead = [name for name, _, _, _ in fs if name not in h1][:1]
+            for name in dead:
+                res2, err2 = build_and_run(gen_eval_program(fs, seed, only={name}), "crash")
+                x = y = "?"
+                if res2:
+                    (c1, _, e1), (c2, _, e2) = res2
+                    l1, l2 = e1.splitlines(), e2.splitlines()
+                    nxt = [l for l in l2[len([l for l in l1 if len(l.split()) == 4]):] if len(l.split()) == 4][:1]
+                    if nxt:
+                        _, x, y, want = nxt[0].split()
+                ck.violation("intop-" + name, "%s(%s, %s): the llgo-compiled program is killed (exit %s); Go computes a value" % (name, x, y, rc1),
+                             {"function": [s for n, s, k, m in fs if n == name][0], "x": x, "y": y, "llgo_rc": rc1, "stderr_tail": se1[-300:]})
+            if not dead:
+                ck.correspondence_broken("e2e-evaluator-run", {"rc_llgo": rc1, "rc_go": rc2, "stderr_llgo": se1[-800:], "n": len(h2)})
+        elif rc1 != 0 or rc2 != 0 or len(h2) != len(fs):
             ck.correspondence_broken("e2e-evaluator-run", {"rc_llgo": rc1, "rc_go": rc2, "stderr_llgo": se1[-800:], "n": len(h2)})
         npool = 58
         for name, gosrc, key, meta in fs:
